@@ -50,6 +50,7 @@ def formula_set(tier):
               ('pred', '>=', ('neg', X), Y), ('pred', '>=', ('*', X, Y), F.C0), ('pred', '<=', ('/', X, F.C2), Y),
               ('pred', '!==', X, F.C0)):
         fs += [a, ('once', (0, 1), a), ('always', (1, 2), a), ('since', None, a, F.PY)]
+    fs += [f for f in F.patterns() if not F.has_op(f, ('prev', 's_prev', 'next', 's_next', 'rise', 'fall'))]
     out, seen = [], set()
     for f in fs:
         if f not in seen:
